@@ -155,13 +155,14 @@ func (n *verifC08Net) ListenUDP(_ string, a *net.UDPAddr) (transport.UDPConn, er
 }
 
 type verifC08World struct {
-	a         *Agent
-	mu        sync.Mutex
-	states    []ConnectionState
-	net       *verifC08Net
-	conns     []*verifBlockConn
-	onState   func(ConnectionState)
-	inHandler atomic.Int32
+	a          *Agent
+	mu         sync.Mutex
+	states     []ConnectionState
+	net        *verifC08Net
+	conns      []*verifBlockConn
+	onState    func(ConnectionState)
+	inHandler  atomic.Int32
+	renominate bool // the agent is controlling with renomination enabled and holds a pair
 }
 
 // verifC08New mirrors createAgentBase (struct literal) and then runs the real
@@ -295,6 +296,14 @@ func (w *verifC08World) after() {
 	verifAssert(verifC08Closed(err), "Read-after-Close-reports-closed")
 	_, err = conn.Write([]byte{1, 2, 3})
 	verifAssert(verifC08Closed(err), "Write-after-Close-reports-closed")
+	if w.renominate && len(w.conns) > 0 {
+		nSent := w.conns[0].writes.Load()
+		lc, _ := NewCandidateHost(&CandidateHostConfig{Network: udp, Address: "10.0.0.1", Port: 1000, Component: ComponentRTP})
+		rc, _ := NewCandidateHost(&CandidateHostConfig{Network: udp, Address: "20.0.0.1", Port: 2000, Component: ComponentRTP})
+		rerr := a.RenominateCandidate(lc, rc)
+		verifReach("renominate-after-close")
+		verifAssertKnown(rerr != nil && w.conns[0].writes.Load() == nSent, "RenominateCandidate-after-Close-fails-and-sends-nothing", "C08-renominate-bypasses-the-loop", true)
+	}
 	ru := a.remoteUfrag
 	verifAssert(verifC08Closed(a.SetRemoteCredentials("c08lateufrag", verifC08RP)), "SetRemoteCredentials-after-Close-reports-closed")
 	verifAssert(a.remoteUfrag == ru, "SetRemoteCredentials-after-Close-has-no-effect")
@@ -390,13 +399,19 @@ func verifC08CloseVsAPI() {
 func verifC08CloseVsBlockedIO() {
 	w := verifC08New(false)
 	a := w.a
-	kind := verifChoice(4)
-	sock := w.addLocal(1000, kind == 2)
+	kind := verifChoice(5)
+	sock := w.addLocal(1000, kind == 2 || kind == 4)
 	w.addRemote()
-	if kind == 0 {
+	if kind == 0 || kind == 4 {
 		// the reader belongs to a connected agent: a pair is selected, so writes
 		// take the fast path that does not go through the loop
 		err := a.loop.Run(a.loop, func(context.Context) {
+			if kind == 4 { // a controlling agent with renomination enabled (for the calls made after Close)
+				a.isControlling.Store(true)
+				a.enableRenomination = true
+				a.setSelector()
+				w.renominate = true
+			}
 			p := a.checklist[0]
 			p.state, p.nominated = CandidatePairStateSucceeded, true
 			a.setSelectedPair(p)
@@ -416,6 +431,15 @@ func verifC08CloseVsBlockedIO() {
 			_, err := a.Dial(context.Background(), verifC08RU, verifC08RP)
 			verifAssert(err != nil, "blocked-Dial-returns-an-error")
 			verifAssert(verifC08Closed(err) || errors.Is(err, ErrMultipleStart), "blocked-Dial-reports-closed-or-refused")
+		case 4: // a writer blocked in the socket (connected agent: Conn.Write goes straight to the pair)
+			n, err := (&Conn{agent: a}).Write([]byte{1, 2, 3})
+			blockedAtClose := sock.writes.Load() > 0 && !verifC08Closed(err)
+			if blockedAtClose {
+				verifReach("Conn.Write-was-blocked-in-the-socket")
+				verifAssertKnown(err != nil && n == 0, "a-Write-blocked-in-the-socket-and-released-by-Close-returns-an-error", "C08-blocked-write-returns-nil", true)
+			} else {
+				verifAssert(err != nil && n == 0, "a-Write-racing-with-Close-fails")
+			}
 		case 3: // inbound traffic: a Binding request arrives at any moment
 			m, err := stun.Build(stun.BindingRequest, stun.TransactionID,
 				stun.NewUsername(verifC08Ufrag+":"+verifC08RU), stun.NewShortTermIntegrity(verifC08Pwd), stun.Fingerprint)
@@ -433,7 +457,7 @@ func verifC08CloseVsBlockedIO() {
 	if sock.reads.Load() > 0 {
 		verifReach("socket-read-was-pending-at-close")
 	}
-	if kind == 2 && sock.writes.Load() > 0 {
+	if (kind == 2 || kind == 4) && sock.writes.Load() > 0 {
 		verifReach("socket-write-was-blocked-at-close")
 	}
 	w.after()
